@@ -555,7 +555,7 @@ PINS_TOKENIZE = {
                  r"""if ('0' <= c && c <= '9') return c - '0'; if ('a' <= c && c <= 'f') return c - 'a' + 10; return c - 'A' + 10;"""),
     'string_literal_end': (r'^static\s+char\s*\*\s*string_literal_end\s*\(char \*p\)\s*\{',
                  r"""char *start = p; for (; *p != '"'; p++) { if (*p == '\n' || *p == '\0') error_at(start, "unclosed string literal");
-                 if (*p == '\\') p++; } return p;"""),
+                 if (*p == '\\' && p[1]) p++; } return p;"""),
     'read_string_literal': (r'^static\s+Token\s*\*\s*read_string_literal\s*\(char \*start, char \*quote\)\s*\{',
                  r"""char *end = string_literal_end(quote + 1); char *buf = calloc(1, end - quote); int len = 0;
                  for (char *p = quote + 1; p < end;) { if (*p == '\\') buf[len++] = read_escaped_char(&p, p + 1); else buf[len++] = *p++; }
